@@ -20,7 +20,7 @@ import json
 import textwrap
 from abc import ABC, abstractmethod
 from types import CodeType
-from typing import Callable, Set, Optional, List, Union, Type
+from typing import Callable, Set, Optional, List, Tuple, Union, Type
 from weakref import WeakKeyDictionary
 
 from twosigma.memento.reference import FunctionReference
@@ -889,6 +889,19 @@ class GlobalVariableHashRule(HashRule):
         return f"GlobalVariableHashRule(key={repr(self.key)})"
 
 
+class HashRuleSet(set):
+    """
+    The set of hash rules collected for one function. It also remembers the symbols that
+    resolved to objects for which no rule is kept (functions of other packages), each with the
+    object it resolved to, so that a later re-binding of such a symbol does not go unnoticed.
+
+    """
+
+    def __init__(self):
+        super().__init__()
+        self.watched_symbols = []  # type: List[Tuple[Callable, object]]
+
+
 class NonMementoFunctionHashRule(HashRule):
     """
     Hash rule for the case where a variable points to a non-memento function.
@@ -980,6 +993,11 @@ class NonMementoFunctionHashRule(HashRule):
 
         # Only add this function and descend if it is within the package scope.
         if inspect.getmodule(self.src_fn).__package__ not in package_scope:
+            # No rule is kept for a function of another package, but the symbol is still
+            # watched: once it is bound to something else, the version has to be recomputed.
+            watched_symbols = getattr(result, "watched_symbols", None)
+            if watched_symbols is not None:
+                watched_symbols.append((self.resolver, self.src_fn))
             return
 
         # Add self
